@@ -185,7 +185,10 @@ def go_test_overlay(ctx, pkgdir, testfile, run=".", race=False, env=None, timeou
     """Run an in-package test file from /verif/harness/overlay against ctx.repo without writing
     into the repository (go test -overlay)."""
     ov = os.path.join(ctx.scratch, "overlay_%s.json" % os.path.basename(testfile))
-    target = os.path.join(ctx.repo, pkgdir, os.path.basename(testfile))
+    base = os.path.basename(testfile)
+    if base.endswith(".txt"):
+        base = base[:-4]      # kept under a non-Go name so that the harness module does not compile it
+    target = os.path.join(ctx.repo, pkgdir, base)
     json.dump({"Replace": {target: testfile}}, open(ov, "w"))
     cmd = ["go", "test", "-tags", "verif", "-overlay", ov, "-count=1", "-vet=off", "-run", run,
            "-timeout", "%ds" % timeout]
